@@ -7,11 +7,13 @@ C(op, v, cas, opq) == [op |-> op, q |-> FALSE, gk |-> FALSE,
                        k |-> K, v |-> v, f |-> "9", ttl |-> 0, ttls |-> "0", cas |-> cas, opq |-> opq, d |-> "1", i |-> "10",
                        bl |-> 2]
 (* vocabulary of client w (values distinct per client, numeric so that counters apply) *)
-V03(w) == { C("get", "", "0", "1"), C("set", IF w = 1 THEN "37" ELSE IF w = 2 THEN "38" ELSE "39", "0", "2"),
+Cttl(op, v, cas, opq, t) == [C(op, v, cas, opq) EXCEPT !.ttl = t, !.ttls = NatToStr(t)]
+V03(w) == { C("get", "", "0", "1"), Cttl("set", IF w = 1 THEN "37" ELSE IF w = 2 THEN "38" ELSE "39", "0", "15", 3), C("set", IF w = 1 THEN "37" ELSE IF w = 2 THEN "38" ELSE "39", "0", "2"),
             C("set", IF w = 1 THEN "37" ELSE IF w = 2 THEN "38" ELSE "39", "1", "3"),
             C("set", IF w = 1 THEN "37" ELSE IF w = 2 THEN "38" ELSE "39", "77", "4"),
             C("delete", "", "0", "5"), C("delete", "", "1", "6") }
 V04(w) == { C("add", IF w = 1 THEN "37" ELSE IF w = 2 THEN "38" ELSE "39", "0", "7"),
+            Cttl("add", IF w = 1 THEN "37" ELSE IF w = 2 THEN "38" ELSE "39", "0", "16", 3),
             C("replace", IF w = 1 THEN "37" ELSE IF w = 2 THEN "38" ELSE "39", "0", "8"),
             C("append", IF w = 1 THEN "3c313e" ELSE IF w = 2 THEN "3c323e" ELSE "3c333e", "0", "9"),
             C("prepend", IF w = 1 THEN "3c313e" ELSE IF w = 2 THEN "3c323e" ELSE "3c333e", "0", "10"),
